@@ -40,7 +40,9 @@ def namedTable : List (String × GoType) :=
    ("error", .any), ("Result", GoType.ofFields [.any, tError]), ("ErrStr", GoType.ofFields [tString]),
    ("MyErr", GoType.ofFields [.basic .int]), ("MyNCErr", GoType.ofFields [tStrings]), ("MyStrErr", tString),
    -- `type MyRes flyt.Result`
-   ("MyRes", GoType.ofFields [.any, tError])]
+   ("MyRes", GoType.ofFields [.any, tError]),
+   -- `encoding/json.Number` (a string-kinded type)
+   ("JNumber", tString)]
 
 /-- the table's `error` / `Result` are the model's `tError` / `tResult` -/
 example : (namedTable.lookup "error").map (GoType.named "error") = some tError
